@@ -529,10 +529,13 @@ Qed.
 (* ================================================================================================ cross-parameter rules *)
 Lemma kauri_cross_spec : forall leaf split, kauri_cross_ok leaf split = true <-> (2 * leaf <= split)%Z.
 Proof. intros leaf split. unfold kauri_cross_ok. rewrite negb_true_iff, Z.ltb_ge. lia. Qed.
-Lemma douglas_mask_spec : forall m d, douglas_mask_ok m d = true <-> (m = None \/ m = Some d).
+Lemma douglas_mask_spec : forall m d, douglas_mask_ok m d = true <->
+  (m = None \/ exists l, m = Some l /\ List.length l = d /\ In true l).
 Proof.
   intros [l|] d; simpl.
-  - rewrite Nat.eqb_eq. split; [intros ->; right; reflexivity|intros [H|H]; [discriminate|inversion H; reflexivity]].
+  - rewrite andb_true_iff, Nat.eqb_eq, existsb_exists. split.
+    + intros [Hl [b [Hb E]]]. subst b. right. exists l. auto.
+    + intros [H|[l' [E [Hl Hi]]]]; [discriminate|]. inversion E. subst l'. split; [exact Hl|]. exists true. auto.
   - split; [left; reflexivity|reflexivity].
 Qed.
 Lemma data_ok_spec : forall ndim n d numeric finite m, data_ok ndim n d numeric finite m = true <->
@@ -572,29 +575,100 @@ Proof.
   rewrite (no_check_accepts (writes attrs) [] (writes_no_check attrs)). unfold writes. rewrite map_map, map_id, app_nil_r. reflexivity.
 Qed.
 
-(* the code as it is: a fit rejected by the hyper-parameter or data checks of DiscriminativeModel.fit / Kauri.fit has
-   written nothing; one rejected by the later cross-parameter rule has written n_features_in_ only *)
-Lemma fit_base_early_rejection : forall w k, params_ok k && x_ok k && samples_ok k = false -> run (fit_base w k) [] = (false, []).
-Proof. intros w [p x m g c a] H. simpl in H. unfold fit_base. simpl. destruct p, x, m; try discriminate; reflexivity. Qed.
-Lemma fit_base_cross_rejection : forall w k, params_ok k = true -> x_ok k = true -> samples_ok k = true -> cross_ok k = false ->
-  run (fit_base w k) [] = (false, ["n_features_in_"%string]).
-Proof. intros w [p x m g c a] Hp Hx Hm Hc. simpl in *. subst. reflexivity. Qed.
-Lemma fit_kauri_rejection : forall k, fst (run (fit_kauri k) []) = false -> incl (snd (run (fit_kauri k) [])) ["n_features_in_"%string].
+(* the code as it is.  DiscriminativeModel.fit and Kauri.fit: every check precedes every write except that of
+   n_features_in_ (made by validate_data itself): a rejected fit has written nothing (hyper-parameters, data) or
+   n_features_in_ only (affinity, cross-parameter rule). *)
+Lemma fit_base_rejection : forall w k, fst (run (fit_base w k) []) = false ->
+  snd (run (fit_base w k) []) = (if params_ok k && x_ok k && samples_ok k then ["n_features_in_"%string] else []).
 Proof.
-  intros [p x m g c a]. unfold fit_kauri. simpl. destruct p, x, m, c, a; simpl; intros H; try discriminate; intros y Hy; try contradiction; exact Hy.
+  intros w [p x m g c a]. unfold fit_base. simpl. destruct p, x, m, a, c; simpl; intros H; try reflexivity.
+  rewrite (no_check_accepts (writes w ++ [Write "optimiser_"; Write "labels_"; Write "n_iter_"]%string)) in H; [discriminate|].
+  clear H. induction w; simpl; auto.
 Qed.
-(* ... but validation does not always come first: three rejected fits that leave attributes behind *)
+Lemma fit_kauri_rejection : forall k, fst (run (fit_kauri k) []) = false ->
+  snd (run (fit_kauri k) []) = (if params_ok k && x_ok k && samples_ok k then ["n_features_in_"%string] else []).
+Proof.
+  intros [p x m g c a]. unfold fit_kauri. simpl. destruct p, x, m, c, a; simpl; intros H; try discriminate; reflexivity.
+Qed.
+(* the sparse models: hyper-parameters, data and sample count are validated before anything is stored; the group check
+   follows n_features_in_; only the bookkeeping attributes n_features_in_ / groups_ can survive a later rejection *)
+Lemma fit_sparse_rejection : forall w k, fst (run (fit_sparse w k) []) = false ->
+  snd (run (fit_sparse w k) []) =
+    (if params_ok k && x_ok k && samples_ok k then (if groups_ok k then ["n_features_in_"; "groups_"; "n_features_in_"]%string else ["n_features_in_"%string]) else []).
+Proof.
+  intros w [p x m g c a]. unfold fit_sparse, fit_base. simpl. destruct p, x, m, g, a, c; simpl; intros H; try reflexivity.
+  rewrite (no_check_accepts (writes w ++ [Write "optimiser_"; Write "labels_"; Write "n_iter_"]%string)) in H; [discriminate|].
+  clear H. induction w; simpl; auto.
+Qed.
+(* KernelRIM: hyper-parameters and data first; the training data and its kernel are stored before the sample count is
+   compared with n_clusters *)
+Lemma fit_kernelrim_rejection : forall k, fst (run (fit_kernelrim k) []) = false ->
+  snd (run (fit_kernelrim k) []) =
+    (if params_ok k && x_ok k then
+       (if affinity_ok k then (if samples_ok k then ["n_features_in_"; "training_kernel_"; "input_data_"]%string else ["training_kernel_"; "input_data_"]%string)
+        else ["input_data_"%string])
+     else []).
+Proof.
+  intros [p x m g c a]. unfold fit_kernelrim, fit_base. simpl. destruct p, x, a, m, c; simpl; intros H; try discriminate; reflexivity.
+Qed.
 Definition all_ok : checks := {| params_ok := true; x_ok := true; samples_ok := true; groups_ok := true; cross_ok := true; affinity_ok := true |}.
 Definition bad_affinity : checks := {| params_ok := true; x_ok := true; samples_ok := true; groups_ok := true; cross_ok := true; affinity_ok := false |}.
 Definition bad_params : checks := {| params_ok := false; x_ok := true; samples_ok := true; groups_ok := true; cross_ok := true; affinity_ok := true |}.
 Definition bad_samples : checks := {| params_ok := true; x_ok := true; samples_ok := false; groups_ok := true; cross_ok := true; affinity_ok := true |}.
+(* regression statements for the repaired orders (each was a leak before the fix: commits f3fd784, c877076, 529a37a) *)
+Lemma fit_asis_repaired :
+  run (fit_base ["W_"; "b_"]%string bad_affinity) [] = (false, ["n_features_in_"]%string) /\
+  run (fit_sparse ["W_"; "b_"]%string bad_params) [] = (false, []) /\
+  run (fit_sparse ["W_"; "b_"]%string bad_samples) [] = (false, []) /\
+  run (fit_kernelrim bad_params) [] = (false, []).
+Proof. repeat split. Qed.
+(* what is still not "validate first": KernelRIM with fewer samples than n_clusters *)
 Lemma fit_asis_leaves_attributes :
-  (* a missing / unusable affinity is found after the weights and the optimiser were created *)
-  run (fit_base ["W_"; "b_"]%string bad_affinity) [] = (false, ["optimiser_"; "b_"; "W_"; "n_features_in_"]%string) /\
-  (* the sparse models validate their hyper-parameters and the number of samples after storing groups_ *)
-  run (fit_sparse ["W_"; "b_"]%string bad_params) [] = (false, ["groups_"; "n_features_in_"]%string) /\
-  run (fit_sparse ["W_"; "b_"]%string bad_samples) [] = (false, ["groups_"; "n_features_in_"]%string) /\
-  (* KernelRIM stores the data and the kernel first *)
-  run (fit_kernelrim bad_params) [] = (false, ["training_kernel_"; "input_data_"]%string) /\
+  validate_first (fit_kernelrim all_ok) = false /\
   run (fit_kernelrim bad_samples) [] = (false, ["training_kernel_"; "input_data_"]%string).
 Proof. repeat split. Qed.
+
+(* check_groups on arbitrary entries: accepted exactly when every entry is an integer (not a bool) and the integer
+   group list is accepted *)
+Lemma all_ints_spec : forall l zs, all_ints l = Some zs <-> l = map GInt zs.
+Proof.
+  induction l as [|e r IH]; intros zs; simpl.
+  - split; [intros H; inversion H; reflexivity|intros H; destruct zs; [reflexivity|discriminate]].
+  - destruct e as [z|b|]; simpl.
+    + destruct (all_ints r) as [zr|] eqn:E.
+      * split; [intros H; inversion H; subst; simpl; f_equal; apply IH; reflexivity|].
+        intros H. destruct zs as [|z' zs']; [discriminate|]. simpl in H. inversion H. subst.
+        f_equal. f_equal. assert (Some zr = Some zs') by (apply IH; reflexivity). congruence.
+      * split; [discriminate|]. intros H. destruct zs as [|z' zs']; [discriminate|]. simpl in H. inversion H.
+        assert (None = Some zs') by (apply IH; assumption). discriminate.
+    + split; [discriminate|]. intros H. destruct zs; discriminate.
+    + split; [discriminate|]. intros H. destruct zs; discriminate.
+Qed.
+Lemma all_int_groups_spec : forall g gz, all_int_groups g = Some gz <-> g = map (map GInt) gz.
+Proof.
+  induction g as [|x r IH]; intros gz; simpl.
+  - split; [intros H; inversion H; reflexivity|intros H; destruct gz; [reflexivity|discriminate]].
+  - destruct (all_ints x) as [a|] eqn:Ea.
+    + apply all_ints_spec in Ea. destruct (all_int_groups r) as [b|] eqn:Eb.
+      * split; [intros H; inversion H; subst; simpl; f_equal; apply IH; reflexivity|].
+        intros H. destruct gz as [|a' gz']; [discriminate|]. simpl in H. inversion H.
+        assert (Ha : all_ints (map GInt a') = Some a') by (apply all_ints_spec; reflexivity).
+        assert (Ha2 : all_ints (map GInt a') = Some a) by (apply all_ints_spec; congruence).
+        assert (Some b = Some gz') by (apply IH; assumption). congruence.
+      * split; [discriminate|]. intros H. destruct gz as [|a' gz']; [discriminate|]. simpl in H. inversion H.
+        assert (None = Some gz') by (apply IH; assumption). discriminate.
+    + split; [discriminate|]. intros H. destruct gz as [|a' gz']; [discriminate|]. simpl in H. inversion H.
+      assert (all_ints x = Some a') by (apply all_ints_spec; assumption). congruence.
+Qed.
+Lemma check_groups_entries_spec : forall g d r, check_groups_entries g d = Some r <->
+  exists gz, g = map (map GInt) gz /\ check_groups gz d = Some r.
+Proof.
+  intros g d r. unfold check_groups_entries. destruct (all_int_groups g) as [gz|] eqn:E.
+  - apply all_int_groups_spec in E. split; [intros H; exists gz; auto|].
+    intros [gz' [H1 H2]]. assert (all_int_groups g = Some gz') by (apply all_int_groups_spec; exact H1).
+    assert (all_int_groups g = Some gz) by (apply all_int_groups_spec; exact E). congruence.
+  - split; [discriminate|]. intros [gz' [H1 _]]. apply all_int_groups_spec in H1. congruence.
+Qed.
+Lemma precomputed_ok_spec : forall ndim rows cols n numeric finite, precomputed_ok ndim rows cols n numeric finite = true <->
+  (ndim = 2 /\ numeric = true /\ finite = true /\ rows = cols /\ rows = n).
+Proof. intros. unfold precomputed_ok. rewrite !andb_true_iff, !Nat.eqb_eq. tauto. Qed.
